@@ -10,7 +10,8 @@ import (
 //	election  : random pillar/delegation configurations through the real SelectProducers
 //	momentum  : valid next momentums, every single-field mutation, other signers, through Supervisor.ApplyMomentum
 //	schedule  : GetMomentumProducer for every slot on a live / reorganised node vs cold and restarted nodes
+//	coldstart : nodes whose consensus DB is deleted at every position inside a tick, fed on momentum by momentum (coldstart.go)
 func main() {
 	Main(map[string]Runner{"election": runElection, "momentum": runMomentum, "schedule": runSchedule, "concurrent": runConcurrent,
-		"concurrent-race": func(rng *rand.Rand, n int, out *Out, _ []string) { raceRun(rng, n, out) }, "produce": runProduce})
+		"concurrent-race": func(rng *rand.Rand, n int, out *Out, _ []string) { raceRun(rng, n, out) }, "produce": runProduce, "coldstart": runColdStart})
 }
